@@ -826,6 +826,10 @@ func (x decNegintPosintFloatNumberHelper) float64TryInteger(cbor bool) float64 {
 	if !ok {
 		halt.errorStr2("invalid descriptor for float: ", x.d.descBd())
 	}
+	if !neg {
+		// an unsigned stream integer converts directly: values >= 1<<63 are representable as floats
+		return float64(ui)
+	}
 	return float64(decNegintPosintFloatNumberHelperInt64v(ui, neg, cbor))
 }
 
